@@ -265,6 +265,8 @@ func errName(err error) string {
 		return "timeout"
 	case errors.Is(err, server.ErrInvalidHeadOffset):
 		return "err:invalid-head"
+	case strings.Contains(err.Error(), "offset out of bounds"):
+		return "err:out-of-bounds"
 	case strings.Contains(err.Error(), "unreachable"):
 		return "timeout"
 	case strings.Contains(err.Error(), "all followers are already attached"):
